@@ -118,7 +118,7 @@ func c16Profile(group, id int, seed uint64, empty, invalid bool) *profile.Profil
 		SampleType:    []*profile.ValueType{{Type: "allocs", Unit: "count"}, {Type: "objs", Unit: "count"}},
 		PeriodType:    &profile.ValueType{Type: "space", Unit: "bytes"},
 		Period:        1 + int64(r.Intn(5)),
-		TimeNanos:     1600000000000000000 + int64(id) + 1 + int64(group)*1000,
+		TimeNanos:     c16Time(group, id),
 		DurationNanos: 1000 + int64(id),
 		Comments:      []string{tok},
 		DocURL:        "http://doc.invalid/" + tok,
@@ -161,6 +161,11 @@ func c16Profile(group, id int, seed uint64, empty, invalid bool) *profile.Profil
 		p.Sample = append(p.Sample, &profile.Sample{Location: []*profile.Location{main}, Value: []int64{1}})
 	}
 	return p
+}
+
+// c16Time: collection time of a source — never 0, not monotonic in the index.
+func c16Time(group, id int) int64 {
+	return 1600000000000000000 + int64((id*7919+group*31)%1009) + 1
 }
 
 func c16ProfileOf(group, id int, s c16Src) *profile.Profile {
@@ -230,6 +235,7 @@ type c16Expect struct {
 	OkSrc    []int
 	OkBase   []int
 	NFail    [2]int
+	Time     int64 // earliest collection time among the successful sources and bases
 }
 
 func c16Expected(cs *c16Case, kinds []string) *c16Expect {
@@ -242,6 +248,9 @@ func c16Expected(cs *c16Case, kinds []string) *c16Expect {
 			continue
 		}
 		e.OkSrc = append(e.OkSrc, i)
+		if t := c16Time(0, i); e.Time == 0 || t < e.Time {
+			e.Time = t
+		}
 		e.W.add(c16ProfileOf(0, i, s), 1, "")
 		e.Comments = append(e.Comments, c16Token(0, i))
 		if e.DocURL == "" {
@@ -255,6 +264,9 @@ func c16Expected(cs *c16Case, kinds []string) *c16Expect {
 			continue
 		}
 		e.OkBase = append(e.OkBase, j)
+		if t := c16Time(1, j); e.Time == 0 || t < e.Time {
+			e.Time = t
+		}
 		extra := ""
 		if cs.DiffBase {
 			extra = "pprof::base=true"
@@ -718,6 +730,11 @@ func (k *c16Checker) check(cs *c16Case, label string, kinds []string, exp *c16Ex
 			ok = viol(sig, fmt.Sprintf("merged comments (one per source, in merge order) are %s, want %s", trunc16(strings.Join(p.Comments, " ")), trunc16(strings.Join(exp.Comments, " "))))
 		} else if p.DocURL != exp.DocURL {
 			ok = viol("C16/order/first-source-header", fmt.Sprintf("DocURL %q, want that of the first successful source %q", p.DocURL, exp.DocURL))
+		}
+		// all generated collection times are non-zero, so this holds with and without the
+		// earliest-non-zero repair of combineHeaders (C03)
+		if p.TimeNanos != exp.Time {
+			ok = viol("C16/header/collection-time", fmt.Sprintf("TimeNanos %d, want the earliest time of the successful sources %d", p.TimeNanos, exp.Time))
 		}
 	case "traces":
 		got, perr := c16ParseTraces(string(obs.Out))
@@ -1452,7 +1469,8 @@ func c16Worker(c *Ctx) {
 		}
 		cs.Sources = c16GenSrcs(rr, n, pct, c16CLIFail, []string{c16OKFile})
 		if i%3 == 1 {
-			cs.Bases = c16GenSrcs(rr, 1+rr.Intn(3), 40, c16CLIFail, []string{c16OKFile})
+			// the stock command-line flag set keeps a single -base/-diff_base value
+			cs.Bases = c16GenSrcs(rr, 1, 40, c16CLIFail, []string{c16OKFile})
 			cs.DiffBase = rr.Bool()
 		}
 		cliCases = append(cliCases, cs)
